@@ -10,9 +10,28 @@
   The property is TRUE of the default configuration (`C09_default`); it is FALSE when
   `enable_custom_operations = true` (finding C09-F1: the custom_* modules import input/enum classes
   that nothing reports to the pruning) — `C09_full_false`, `C09_partial`.
+
+  Document side (last section; model Model/PruneDoc.lean, lemmas Proofs/PruneDoc.lean): the
+  `add_operation` loop of `main.client` with the ONE shared `ArgumentsGenerator` (variable types as
+  type-node trees: any nesting of list / non-null wrappers; `ParsingError` for unknown / object types),
+  `_generate_fragments` (early return when every fragment definition was unpacked by an operation;
+  `exclude_names`; the set `_fragments_names` enumerated in any order) and then the steps above.
+  `generateDoc` is proved to be `Prune.generate ∘ toInput` (`generateDoc_ok_iff`, `doc_error_iff`), so
+  the roots and the enum lists are no longer inputs: `doc_inputs_is_closure`, `doc_enums_is_closure`,
+  `doc_fragments_written_iff`, `doc_total`, `doc_error_flag_independent`, `doc_set_order_irrelevant`,
+  `C09_doc`, `C09_doc_closed`; `order_matters_add_operation` is the counter-model for reading the arguments generator
+  before `add_method`.
+
+  Still parameters (component outputs, compared with the real code by harness/c09.py on every run, the
+  walk that produces them is Model/ResultTypes.lean of C01/C08): per operation / per fragment definition
+  `ResultTypesGenerator.get_used_enums()` and `get_unpacked_fragments()`; per input type the classified
+  named type of every field (the wrappers of input FIELDS are stripped by the harness; C06's
+  Model/InputDeps.lean models that step).  Outside the model: the emitted text (class bodies are opaque),
+  autoflake / isort / black, CPython import, pydantic, plugins, Python's recursion limit.
 -/
 import AriadneModel.Proofs.Prune
 import AriadneModel.Proofs.PruneOrder
+import AriadneModel.Proofs.PruneDoc
 import Mathlib.Logic.Relation
 
 set_option linter.unusedSimpArgs false
@@ -647,5 +666,391 @@ example : getDependenciesOfType exInput.inputs "A" = some ["A", "B"] := by decid
 
 /-- `order_sufficient` is not vacuous: a permuted order with enums last, on the example. -/
 example : generateWith ([.client, .fragments, .inputs, .results] ++ [.enums]) exInput = generate exInput := by decide
+
+/-! ### The document side: from operations and fragments to roots and used enums (Model/PruneDoc.lean)
+
+  `generateDoc` runs the `add_operation` loop of `main.client` (result-types generator, then the shared
+  arguments generator over variable types with any nesting of list / non-null wrappers), decides in
+  `_generate_fragments` whether fragments.py is written and which fragment definitions it holds
+  (those no OPERATION unpacked), and then the steps of `PackageGenerator.generate`.  It is proved to be
+  `Prune.generate` of the closed-form abstraction `toInput`, so everything above transfers; the
+  statements below are in the vocabulary of the document. -/
+
+section Doc
+open Ariadne.PruneDoc
+
+/-- `r` is the named type of some operation variable and an input object of the schema. -/
+def DocRoot (x : DocInput) (r : Name) : Prop :=
+  ∃ op ∈ x.ops, ∃ t ∈ op.vars, t.base = r ∧ kindOf x r = .input
+
+def DocVarEnum (x : DocInput) (e : Name) : Prop :=
+  ∃ op ∈ x.ops, ∃ t ∈ op.vars, t.base = e ∧ kindOf x e = .enum
+
+/-- `e` is used by a fragment definition that fragments.py holds: one that no operation unpacked. -/
+def DocFragEnum (x : DocInput) (e : Name) : Prop :=
+  ∃ f ∈ x.frags, (∀ op ∈ x.ops, f.name ∉ op.unpacked) ∧ e ∈ f.enums
+
+def DocInClosure (x : DocInput) (n : Name) : Prop :=
+  ∃ r, DocRoot x r ∧ Relation.ReflTransGen (fun a b => b ∈ depsOf x.inputs a) r n
+
+def DocEnumNeeded (x : DocInput) (retained : List InputDef) (e : Name) : Prop :=
+  DocVarEnum x e ∨ (∃ c ∈ retained, e ∈ enumRefs c) ∨ (∃ op ∈ x.ops, e ∈ op.resultEnums) ∨ DocFragEnum x e
+
+/-- Every variable is typed by an input object, an enum or a scalar of the schema (what graphql-core's
+    validation guarantees for the operations `main.client` accepts). -/
+def VarsTyped (x : DocInput) : Prop :=
+  ∀ op ∈ x.ops, ∀ t ∈ op.vars,
+    kindOf x t.base = .input ∨ kindOf x t.base = .enum ∨ kindOf x t.base = .scalar
+
+/-- List and non-null wrappers of a variable type are transparent for the bookkeeping, at any depth. -/
+theorem variable_wrappers_transparent (kinds : Name → Kind) (st : ArgSt) (t : TypeNode) :
+    parseTypeNode kinds st t = parseNamed kinds st t.base :=
+  parseTypeNode_base kinds st t
+
+/-- What one `ArgumentsGenerator.generate` call records: exactly the named types of the variables that
+    are input objects / enums, or the first `ParsingError`. -/
+theorem variables_use_exact (kinds : Name → Kind) (vars : List TypeNode) (a : ArgSt) (h : varsUse kinds vars = .ok a) :
+    (∀ n, n ∈ a.usedInputs ↔ ∃ t ∈ vars, t.base = n ∧ kinds n = .input) ∧
+    (∀ n, n ∈ a.usedEnums ↔ ∃ t ∈ vars, t.base = n ∧ kinds n = .enum) := by
+  rw [varsUse_eq] at h
+  cases hb : firstBad kinds vars with
+  | some e => simp [hb] at h
+  | none =>
+    simp only [hb, Except.ok.injEq] at h
+    subst h
+    exact ⟨mem_usesInputs kinds vars, mem_usesEnums kinds vars⟩
+
+theorem mem_varInputsOf_doc (x : DocInput) (i : Input) (h : toInput x = .ok i) (r : Name) :
+    r ∈ varInputsOf i ↔ DocRoot x r := by
+  obtain ⟨_, _, _, _, _, _, _, _, hops⟩ := toInput_fields x i h
+  unfold varInputsOf DocRoot
+  rw [hops]
+  simp only [List.mem_flatMap, List.mem_map]
+  constructor
+  · rintro ⟨o, ⟨op, hop, rfl⟩, hr⟩
+    obtain ⟨t, ht, hb, hk⟩ := (mem_usesInputs _ _ _).mp hr
+    exact ⟨op, hop, t, ht, hb, hk⟩
+  · rintro ⟨op, hop, t, ht, hb, hk⟩
+    exact ⟨_, ⟨op, hop, rfl⟩, (mem_usesInputs _ _ _).mpr ⟨t, ht, hb, hk⟩⟩
+
+theorem mem_varEnumsOf_doc (x : DocInput) (i : Input) (h : toInput x = .ok i) (e : Name) :
+    e ∈ varEnumsOf i ↔ DocVarEnum x e := by
+  obtain ⟨_, _, _, _, _, _, _, _, hops⟩ := toInput_fields x i h
+  unfold varEnumsOf DocVarEnum
+  rw [hops]
+  simp only [List.mem_flatMap, List.mem_map]
+  constructor
+  · rintro ⟨o, ⟨op, hop, rfl⟩, hr⟩
+    obtain ⟨t, ht, hb, hk⟩ := (mem_usesEnums _ _ _).mp hr
+    exact ⟨op, hop, t, ht, hb, hk⟩
+  · rintro ⟨op, hop, t, ht, hb, hk⟩
+    exact ⟨_, ⟨op, hop, rfl⟩, (mem_usesEnums _ _ _).mpr ⟨t, ht, hb, hk⟩⟩
+
+theorem mem_resultEnumsOf_doc (x : DocInput) (i : Input) (h : toInput x = .ok i) (e : Name) :
+    e ∈ resultEnumsOf i ↔ ∃ op ∈ x.ops, e ∈ op.resultEnums := by
+  obtain ⟨_, _, _, _, _, _, _, _, hops⟩ := toInput_fields x i h
+  unfold resultEnumsOf
+  rw [hops]
+  simp only [List.mem_flatMap, List.mem_map]
+  constructor
+  · rintro ⟨o, ⟨op, hop, rfl⟩, hr⟩; exact ⟨op, hop, hr⟩
+  · rintro ⟨op, hop, hr⟩; exact ⟨_, ⟨op, hop, rfl⟩, hr⟩
+
+/-- fragments.py is written exactly when some fragment definition is left that no operation unpacked … -/
+theorem doc_fragments_written_iff (x : DocInput) (i : Input) (h : toInput x = .ok i) :
+    i.fragEnums.isSome = true ↔ ∃ f ∈ x.frags, ∀ op ∈ x.ops, f.name ∉ op.unpacked := by
+  obtain ⟨_, _, _, _, _, _, _, hfr, _⟩ := toInput_fields x i h
+  rw [hfr]
+  unfold fragmentsEnums
+  rw [fragmentsEnumsWith_isSome]
+  constructor
+  · rintro ⟨f, hf, hn⟩; exact ⟨f, hf, (not_mem_unpackedOf x f.name).mp hn⟩
+  · rintro ⟨f, hf, hn⟩; exact ⟨f, hf, (not_mem_unpackedOf x f.name).mpr hn⟩
+
+/-- … and the enums it reports are exactly those of the definitions it holds. -/
+theorem mem_fragEnumsOf_doc (x : DocInput) (i : Input) (h : toInput x = .ok i) (e : Name) :
+    e ∈ fragEnumsOf i ↔ DocFragEnum x e := by
+  obtain ⟨_, _, _, _, _, _, _, hfr, _⟩ := toInput_fields x i h
+  unfold fragEnumsOf DocFragEnum
+  rw [hfr]
+  unfold fragmentsEnums
+  rw [mem_fragmentsEnumsWith id (fun l => List.Perm.refl l)]
+  constructor
+  · rintro ⟨f, hf, hn, he⟩; exact ⟨f, hf, (not_mem_unpackedOf x f.name).mp hn, he⟩
+  · rintro ⟨f, hf, hn, he⟩; exact ⟨f, hf, (not_mem_unpackedOf x f.name).mpr hn, he⟩
+
+/-- The vocabulary of the model is the vocabulary of the document. -/
+theorem doc_vocabulary (x : DocInput) (i : Input) (h : toInput x = .ok i) :
+    (∀ n, InClosure i n ↔ DocInClosure x n) ∧
+    (∀ retained e, EnumNeeded i retained e ↔ DocEnumNeeded x retained e) := by
+  obtain ⟨hin, _⟩ := toInput_fields x i h
+  constructor
+  · intro n
+    unfold InClosure DocInClosure
+    rw [hin]
+    constructor
+    · rintro ⟨r, hr, hreach⟩; exact ⟨r, (mem_varInputsOf_doc x i h r).mp hr, hreach⟩
+    · rintro ⟨r, hr, hreach⟩; exact ⟨r, (mem_varInputsOf_doc x i h r).mpr hr, hreach⟩
+  · intro retained e
+    unfold EnumNeeded DocEnumNeeded
+    rw [mem_varEnumsOf_doc x i h, mem_resultEnumsOf_doc x i h, mem_fragEnumsOf_doc x i h]
+
+/-- `generateDoc` succeeds exactly when `toInput` does, with `Prune.generate`'s output. -/
+theorem generateDoc_ok_iff (x : DocInput) (out : Output) :
+    generateDoc x = .ok out ↔ ∃ i, toInput x = .ok i ∧ generate i = some out := by
+  rw [generateDoc_eq]
+  cases ht : toInput x with
+  | error e => simp
+  | ok i =>
+    obtain ⟨o, ho⟩ := generate_total i
+    simp [ho]
+
+/-- The only errors are the two `ParsingError`s of the arguments generator (never the fuel). -/
+theorem doc_error_iff (x : DocInput) (e : Err) : generateDoc x = .error e ↔ toInput x = .error e := by
+  rw [generateDoc_eq]
+  cases ht : toInput x with
+  | error e' => simp
+  | ok i =>
+    obtain ⟨o, ho⟩ := generate_total i
+    simp [ho]
+
+/-- A refused document is refused because of one variable, named in the error. -/
+theorem doc_refuses (x : DocInput) (e : Err) (h : generateDoc x = .error e) :
+    ∃ op ∈ x.ops, ∃ t ∈ op.vars,
+      (kindOf x t.base = .missing ∧ e = .argNotFound t.base) ∨ (kindOf x t.base = .other ∧ e = .argIncorrect t.base) := by
+  rw [doc_error_iff] at h
+  unfold toInput toInputWith at h
+  cases ho : opsOf (kindOf x) x.ops with
+  | ok os => simp [ho] at h
+  | error e' =>
+    simp only [ho, Except.error.injEq] at h
+    subst h
+    obtain ⟨op, hop, hb⟩ := opsOf_error _ _ _ ho
+    obtain ⟨t, ht, hbad⟩ := firstBad_eq_some _ _ _ hb
+    refine ⟨op, hop, t, ht, ?_⟩
+    unfold badOf at hbad
+    cases hk : kindOf x t.base <;> simp [hk] at hbad
+    · exact .inr ⟨rfl, hbad.symm⟩
+    · exact .inl ⟨rfl, hbad.symm⟩
+
+/-- Documents whose variables are typed are never refused (all flag combinations). -/
+theorem doc_total (x : DocInput) (h : VarsTyped x) : ∃ out, generateDoc x = .ok out := by
+  have hg : ∀ op ∈ x.ops, firstBad (kindOf x) op.vars = none := by
+    intro op hop
+    rw [firstBad_eq_none]
+    intro t ht
+    unfold badOf
+    rcases h op hop t ht with hk | hk | hk <;> simp [hk]
+  have ho := opsOf_of_good (kindOf x) x.ops hg
+  have : ∃ i, toInput x = .ok i := by
+    unfold toInput toInputWith
+    rw [ho]
+    exact ⟨_, rfl⟩
+  obtain ⟨i, hi⟩ := this
+  obtain ⟨out, hout⟩ := generate_total i
+  exact ⟨out, (generateDoc_ok_iff x out).mpr ⟨i, hi, hout⟩⟩
+
+/-- Refusal does not depend on the two flags: the pruned run fails exactly when the unpruned one does,
+    with the same error. -/
+theorem doc_error_flag_independent (x : DocInput) (e : Err) :
+    generateDoc x = .error e ↔ generateDoc (unprunedDoc x) = .error e := by
+  rw [doc_error_iff, doc_error_iff, toInput_unprunedDoc]
+  cases toInput x <;> simp
+
+/-- `include_all_inputs = false`: input_types.py is the closure of the variables' input objects. -/
+theorem doc_inputs_is_closure (x : DocInput) (out : Output) (h : generateDoc x = .ok out) (hf : x.allInputs = false) :
+    ∃ p : InputDef → Bool, out.inputsModule = x.inputs.filter p ∧ ∀ c, p c = true ↔ DocInClosure x c.name := by
+  obtain ⟨i, hi, hg⟩ := (generateDoc_ok_iff x out).mp h
+  obtain ⟨hin, _, hai, _⟩ := toInput_fields x i hi
+  obtain ⟨p, e, hp⟩ := inputs_is_closure i out hg (by rw [hai]; exact hf)
+  exact ⟨p, by rw [e, hin], fun c => (hp c).trans ((doc_vocabulary x i hi).1 c.name)⟩
+
+/-- `include_all_enums = false`: enums.py holds exactly the enums of variable types (under any wrappers),
+    of retained input classes, of the operations' result types and of the fragment definitions that
+    fragments.py holds — an enum used only by fragments that some operation unpacked is not among them. -/
+theorem doc_enums_is_closure (x : DocInput) (out : Output) (h : generateDoc x = .ok out) (hf : x.allEnums = false) :
+    ∃ q : EnumDef → Bool, out.enumsModule = x.enums.filter q ∧
+      ∀ c, q c = true ↔ DocEnumNeeded x out.inputsModule c.name := by
+  obtain ⟨i, hi, hg⟩ := (generateDoc_ok_iff x out).mp h
+  obtain ⟨_, hen, _, hae, _⟩ := toInput_fields x i hi
+  obtain ⟨q, e, hq⟩ := enums_is_closure i out hg (by rw [hae]; exact hf)
+  exact ⟨q, by rw [e, hen], fun c => (hq c).trans ((doc_vocabulary x i hi).2 out.inputsModule c.name)⟩
+
+/-- The set `_fragments_names` may be enumerated in any order: the package does not change. -/
+theorem doc_set_order_irrelevant (e : List FragDef → List FragDef) (he : ∀ l, (e l).Perm l) (x : DocInput) :
+    generateDocWith false e x = generateDoc x := by
+  unfold generateDoc
+  rw [generateDocWith_eq, generateDocWith_eq]
+  unfold toInputWith
+  cases ho : opsOf (kindOf x) x.ops with
+  | error err => rfl
+  | ok os =>
+    simp only
+    have := generate_frag_congr
+      { inputs := x.inputs, enums := x.enums, ops := os, fragEnums := fragmentsEnumsWith id x.frags (unpackedOf x),
+        allInputs := x.allInputs, allEnums := x.allEnums, customOps := x.customOps,
+        customInputs := x.customInputs, customEnums := x.customEnums }
+      (fragmentsEnumsWith e x.frags (unpackedOf x))
+      (fun n => by
+        simp only
+        rw [mem_fragmentsEnumsWith e he, mem_fragmentsEnumsWith id (fun l => List.Perm.refl l)])
+    simp only at this
+    rw [this]
+
+/-- C09 for documents, outside the trigger of C09-F1: whenever the unpruned package is produced and
+    loads, the pruned one is produced and `Holds`. -/
+theorem C09_doc (x : DocInput) (i : Input) (hi : toInput x = .ok i) (outAll : Output)
+    (hall : generateDoc (unprunedDoc x) = .ok outAll) (hl : Loads i outAll) (hs : Supported_09 i) :
+    ∃ out, generateDoc x = .ok out ∧ Holds i outAll out := by
+  obtain ⟨j, hj, hgj⟩ := (generateDoc_ok_iff _ _).mp hall
+  rw [toInput_unprunedDoc, hi] at hj
+  simp only [Except.ok.injEq] at hj
+  subst hj
+  obtain ⟨out, hg, hh⟩ := C09_partial i outAll hgj hl hs
+  exact ⟨out, (generateDoc_ok_iff x out).mpr ⟨i, hi, hg⟩, hh⟩
+
+/-- The schema's classification agrees with the class tables. -/
+def KindsAgree (x : DocInput) : Prop :=
+  ∀ p ∈ x.kinds, (p.2 = .input → p.1 ∈ names x.inputs) ∧ (p.2 = .enum → p.1 ∈ enames x.enums)
+
+instance (x : DocInput) : Decidable (KindsAgree x) := by unfold KindsAgree; infer_instance
+
+instance (x : DocInput) : Decidable (VarsTyped x) := by unfold VarsTyped; infer_instance
+
+/-- Two of the side conditions of `Resolvable` are consequences for documents: every root and every
+    variable enum is a class of the unpruned modules. -/
+theorem doc_roots_defined (x : DocInput) (i : Input) (hi : toInput x = .ok i) (hk : KindsAgree x) :
+    (∀ r ∈ varInputsOf i, r ∈ names i.inputs) ∧ (∀ e ∈ varEnumsOf i, e ∈ enames i.enums) := by
+  obtain ⟨hin, hen, _⟩ := toInput_fields x i hi
+  rw [hin, hen]
+  constructor
+  · intro r hr
+    obtain ⟨_, _, _, _, _, hkr⟩ := (mem_varInputsOf_doc x i hi r).mp hr
+    exact (hk _ (mem_kinds_of_kindOf x r .input (by simp) hkr)).1 rfl
+  · intro e he
+    obtain ⟨_, _, _, _, _, hke⟩ := (mem_varEnumsOf_doc x i hi e).mp he
+    exact (hk _ (mem_kinds_of_kindOf x e .enum (by simp) hke)).2 rfl
+
+/-- A closed document description: the kind table agrees with the class tables, the variables are typed,
+    and every name an input class, an operation's result types or a fragment definition refers to is a
+    class of the unpruned modules (what a schema accepted by graphql-core and validated operations give). -/
+def DocResolvable (x : DocInput) : Prop :=
+  KindsAgree x ∧ VarsTyped x ∧
+  (∀ d ∈ x.inputs, ∀ n ∈ inputRefs d, n ∈ names x.inputs) ∧
+  (∀ d ∈ x.inputs, ∀ e ∈ enumRefs d, e ∈ enames x.enums) ∧
+  (∀ op ∈ x.ops, ∀ e ∈ op.resultEnums, e ∈ enames x.enums) ∧
+  (∀ f ∈ x.frags, ∀ e ∈ f.enums, e ∈ enames x.enums)
+
+instance (x : DocInput) : Decidable (DocResolvable x) := by unfold DocResolvable; infer_instance
+
+theorem doc_resolvable (x : DocInput) (i : Input) (hi : toInput x = .ok i) (h : DocResolvable x) : Resolvable i := by
+  obtain ⟨hk, _, h1, h2, h3, h4⟩ := h
+  obtain ⟨hin, hen, _⟩ := toInput_fields x i hi
+  obtain ⟨hr, hv⟩ := doc_roots_defined x i hi hk
+  refine ⟨?_, ?_, hr, hv, ?_, ?_⟩
+  · rw [hin]; exact h1
+  · rw [hin, hen]; exact h2
+  · intro e he
+    obtain ⟨op, hop, heo⟩ := (mem_resultEnumsOf_doc x i hi e).mp he
+    rw [hen]; exact h3 op hop e heo
+  · intro e he
+    obtain ⟨f, hf, _, hef⟩ := (mem_fragEnumsOf_doc x i hi e).mp he
+    rw [hen]; exact h4 f hf e hef
+
+/-- C09 for closed documents in the default configuration, without any hypothesis about the output:
+    for all four flag combinations both packages are produced, the unpruned one is well-scoped, and the
+    pruned one loads, holds the closure and nothing else of a pruned kind, identically. -/
+theorem C09_doc_closed (x : DocInput) (h : DocResolvable x) (hc : x.customOps = false) :
+    ∃ i outAll out, toInput x = .ok i ∧ generateDoc (unprunedDoc x) = .ok outAll ∧ generateDoc x = .ok out ∧
+      WellScoped i outAll ∧ Holds i outAll out := by
+  obtain ⟨out0, hout0⟩ := doc_total x h.2.1
+  obtain ⟨i, hi, _⟩ := (generateDoc_ok_iff x out0).mp hout0
+  have hres := doc_resolvable x i hi h
+  obtain ⟨outAll, hall⟩ := generate_total (unpruned i)
+  have hw' : WellScoped (unpruned i) outAll :=
+    resolvable_wellScoped (unpruned i) outAll
+      ⟨hres.inputRefs, hres.enumRefs, hres.roots, hres.varEnums, hres.resultEnums, hres.fragEnums⟩ hall
+  have hw : WellScoped i outAll :=
+    ⟨hw'.inputRefs, hw'.inputEnumsImported, hw'.inputEnumImport, hw'.clientInputsCover, hw'.clientEnumsCover,
+      hw'.clientInputs, hw'.clientEnums, hw'.resultEnums, hw'.fragEnums⟩
+  have hci : i.customOps = false := by
+    obtain ⟨_, _, _, _, hco, _⟩ := toInput_fields x i hi
+    rw [hco]; exact hc
+  obtain ⟨out, hg, hh⟩ := C09_default i outAll hci hall hw
+  refine ⟨i, outAll, out, hi, ?_, (generateDoc_ok_iff x out).mpr ⟨i, hi, hg⟩, hw, hh⟩
+  apply (generateDoc_ok_iff _ _).mpr
+  refine ⟨unpruned i, ?_, hall⟩
+  rw [toInput_unprunedDoc, hi]
+  rfl
+
+/-! #### Why `_used_enums` must read the arguments generator after ALL `add_operation` calls -/
+
+/-- `enum E {A}  type Query { f(e: E): Int }   query q($e: [E!]) { f(e: $e) }`, both flags false. -/
+def docOrderWitness : DocInput :=
+  { kinds := [("E", .enum)], inputs := [], enums := [⟨"E", ""⟩],
+    ops := [⟨[.list (.nonNull (.named "E"))], [], []⟩], frags := [], allInputs := false, allEnums := false }
+
+theorem doc_order_real_keeps : generateDoc docOrderWitness = .ok ⟨[], [⟨"E", ""⟩], [], [], ["E"]⟩ := by decide
+
+/-- A variant that extends `_used_enums` from the shared arguments generator inside `add_operation`,
+    before `add_method` parsed the operation's own variables, loses the variable enums of the last
+    operation: client.py imports `E`, enums.py does not define it. -/
+theorem order_matters_add_operation :
+    ∃ out, generateDocWith true id docOrderWitness = .ok out ∧
+      "E" ∈ out.clientEnums ∧ "E" ∉ enames out.enumsModule := by
+  refine ⟨⟨[], [], [], [], ["E"]⟩, by decide, by decide, by decide⟩
+
+/-! #### Non-vacuity (document side) -/
+
+/-- Variables under nested wrappers (`[[In!]!]`, `[E!]`), a scalar variable; `PF` (on a union, no class of its
+    own) unpacked by the first operation, `HF` inherited; enum `P` reaches enums.py through the operation
+    that unpacked `PF`, `H` through fragments.py, `X` only through the unpacked fragment's own entry:
+    pruned. -/
+def exDoc : DocInput :=
+  { kinds := [("In", .input), ("Dep", .input), ("E", .enum), ("P", .enum), ("H", .enum), ("X", .enum), ("C", .enum),
+              ("Int", .scalar), ("Query", .other)],
+    inputs := [⟨"In", [.input "Dep"], ""⟩, ⟨"Dep", [.enum "C"], ""⟩, ⟨"Un", [], ""⟩],
+    enums := [⟨"E", ""⟩, ⟨"P", ""⟩, ⟨"H", ""⟩, ⟨"X", ""⟩, ⟨"C", ""⟩],
+    ops := [⟨[.list (.nonNull (.list (.nonNull (.named "In")))), .named "Int"], ["P"], ["PF"]⟩,
+            ⟨[.list (.nonNull (.named "E"))], [], []⟩],
+    frags := [⟨"PF", ["X"]⟩, ⟨"HF", ["H"]⟩],
+    allInputs := false, allEnums := false }
+
+example : generateDoc exDoc =
+    .ok ⟨[⟨"In", [.input "Dep"], ""⟩, ⟨"Dep", [.enum "C"], ""⟩],
+         [⟨"E", ""⟩, ⟨"P", ""⟩, ⟨"H", ""⟩, ⟨"C", ""⟩], ["C"], ["In"], ["E"]⟩ := by decide
+
+example : VarsTyped exDoc := by decide
+
+example : KindsAgree exDoc := by decide
+
+example : DocResolvable exDoc ∧ exDoc.customOps = false := by decide
+
+example : varsUse (kindOf exDoc) [.list (.nonNull (.list (.nonNull (.named "In")))), .named "Int", .nonNull (.named "E")] =
+    .ok ⟨["In"], ["E"]⟩ := rfl
+
+/-- the abstraction `exDoc` amounts to -/
+def exDocInput : Input :=
+  { inputs := exDoc.inputs, enums := exDoc.enums, ops := [⟨["In"], [], ["P"]⟩, ⟨[], ["E"], []⟩], fragEnums := some ["H"],
+    allInputs := false, allEnums := false }
+
+example : toInput exDoc = .ok exDocInput := rfl
+
+/-- the hypotheses of `C09_doc` are satisfiable: the unpruned package of `exDoc` loads -/
+example : ∃ outAll, generateDoc (unprunedDoc exDoc) = .ok outAll ∧ Loads exDocInput outAll ∧ Supported_09 exDocInput := by
+  refine ⟨⟨exDoc.inputs, exDoc.enums, ["C"], ["In"], ["E"]⟩, by decide, ⟨⟨?_, ?_, ?_, ?_, ?_, ?_, ?_, ?_, ?_⟩, ?_⟩, by decide⟩ <;>
+    simp [exDocInput, exDoc, varInputsOf, varEnumsOf, resultEnumsOf, fragEnumsOf, names, enames, CustomLoads,
+      Prune.inputRefs, Prune.enumRefs]
+
+/-- every fragment unpacked: fragments.py is not written -/
+example : (toInput { exDoc with frags := [⟨"PF", ["X"]⟩] }).toOption.map (·.fragEnums) = some none := by decide
+
+/-- a variable of object type is refused, pruned or not -/
+example : generateDoc { exDoc with ops := [⟨[.named "Query"], [], []⟩] } = .error (.argIncorrect "Query") := by decide
+
+/-- `doc_set_order_irrelevant` is not vacuous: the reversed enumeration -/
+example : generateDocWith false List.reverse exDoc = generateDoc exDoc := by decide
+
+end Doc
 
 end Ariadne.C09
